@@ -3,7 +3,7 @@
    first-match selection among same-named mixins in Deferred.parse. *)
 From Coq Require Import String.
 From Coq Require Import List Ascii Bool ZArith QArith.
-Require Import Model.Text Model.ParamTypes Model.Num Gen.Params.
+Require Import Model.Text Model.ParamTypes Model.Num Gen.PGuards.
 Import ListNotations.
 
 Record cond := MkCond { c_not : bool; c_a : Q; c_op : str; c_b : Q }.
